@@ -62,4 +62,17 @@ MUTANTS = [
     m("empty-check-gone", ["C13"], SEQ, "        prolineContent = float(processed.count(\"P\")) / float(len(processed))", "        prolineContent = float(processed.count(\"P\")) / float(max(1, len(processed)))"),
     m("validate-first-char-unchecked", ["C13"], SEQ, "            if i not in AAs:\n\n                # if we find whitespace", "            if i not in AAs and pos > 1 and (pos < 9 or not i.islower()):\n                pass\n            if i not in AAs and pos > 1:\n\n                # if we find whitespace",
       note="only the first character escapes validation"),
+    # ---- C14
+    m("file-digits-kept", ["C14"], FP, '                elif i in "1234567890":', '                elif i in "123456789":'),
+    m("file-second-header-tolerated", ["C14"], FP, "                if header:\n                    raise SequenceFileParserException(", "                if header and len(seq) == 0:\n                    raise SequenceFileParserException(",
+      note="a second header is only rejected before any residue was read"),
+    m("file-star-stripped-anywhere", ["C14"], FP, "                    parsed_seq = parsed_seq + i                    \n                    continue", "                    continue"),
+    # (replacing line.strip() by rstrip('\\n') is equivalent on the specified domain: only indented headers / edge tabs differ, both unspecified)
+    m("file-lowercase-accepted", ["C14"], FP, "        for i in sequence:\n\n            # if the residue is not in the three letter code", "        for i in sequence.upper():\n\n            # if the residue is not in the three letter code"),
+    m("file-double-star-ok", ["C14"], FP, "        if number_of_asterisk > 1:", "        if number_of_asterisk > 2:"),
+    m("file-star-mid-ok-if-last-line", ["C14"], FP, '        if seq[-1] == "*":\n            return seq[0:-1]', '        if seq[-1] == "*" or seq.index("*") > len(seq) - 4:\n            return seq.replace("*", "")',
+      note="a '*' within the last three residues is silently dropped"),
+    m("file-header-anywhere-in-line", ["C14"], FP, '            if line[0] == ">":', '            if ">" in line:'),
+    m("file-ctor-truncates-60", ["C14"], SP, "            self.SeqObj = Sequence(parserMachine.parseSeqFile(sequenceFile))", "            self.SeqObj = Sequence(parserMachine.parseSeqFile(sequenceFile)[:250])",
+      note="constructor silently truncates long files"),
 ]
